@@ -1,24 +1,27 @@
 """C12 — CFF optimisation, subroutiniser and version never change what is drawn.
 
-What a contract on ufo2ft code can decide here is narrow, and it is stated as such (category: other).
+What contracts on ufo2ft code can decide here is stated as such (category: other): everything the LIBRARIES do to the
+drawing is assumed; everything ufo2ft decides is proved.
 
 Deductive (pyvc, all inputs):
 * OutlineOTFCompiler.getCharStringForGlyph — NON-INTERFERENCE as an explicit functional specification: the pen's
   constructor arguments (width, glyph set, roundTolerance) and what is drawn into it are functions of
   (glyph, private, self.roundTolerance, self.allGlyphs) only; `self.optimizeCFF` reaches exactly one place, the
-  `optimize=` argument of pen.getCharString.  Any two runs that differ only in optimizeCFF therefore hand the
-  pen the same arguments and the same drawing.
-* PostProcessor._get_cff_version — 'CFF ' -> 1, else CFF2 -> 2, else None.
-* PostProcessor._subroutinize_with_compreffor — NotImplementedError exactly when input or output is not CFF 1;
-  otherwise exactly one compreffor.compress(otf) and nothing else.
+  `optimize=` argument of pen.getCharString.
+* OutlineOTFCompiler.__init__ / BaseCompiler.compileOutlines — the optimisation level becomes "specialise iff level >=
+  SPECIALIZE"; roundTolerance is the argument's alone.
+* The CFF dispatch PostProcessor._get_cff_version / _subroutinize_with_compreffor / _subroutinize_with_cffsubr /
+  _subroutinize / process_cff / process and BaseCompiler.postprocess — the decision table of the property as
+  postconditions over a LOG of library calls (which library, on which font, with which arguments, exactly once;
+  NotImplementedError / ValueError exactly for the unsupported cells).
 
-The rest of the dispatch (process / process_cff / _subroutinize / _subroutinize_with_cffsubr) goes through enum
-members' `.value` / `.name`, `getattr(cls, f"...")` and class-level dicts of enum members, which are python-level
-values outside pyvc's data fragment: it is verified by COMPLETE ENUMERATION of the finite decision table on the real
-functions with recording stand-ins for the three library entry points (vcheck/hooks/c12.py, item D).
+Python-level enum members (`backend.value`, `cffVersion.name`, `CFFVersion(v)`, `SubroutinizerBackend(s)`, the class-level
+dict of default backends) are outside the engine: handled here by one variant per member / per `subroutinizer` case,
+trusted models of enum member lookup that read the REAL classes, and a small shim for `.name` / `.value`.
 
 Trusted (carries the property): fontTools' specialiser (`getCharString(optimize=True)`), cffsubr, compreffor and
-convertCFFToCFF2 preserve drawing operations and widths — bounded observer O in the hook.
+convertCFFToCFF2 preserve drawing operations and widths — bounded observer O in the hook (vcheck/hooks/c12.py), which
+also keeps the complete enumeration of the decision table on the real functions as a cross-check (D).
 """
 import z3
 
